@@ -223,6 +223,76 @@ def decodeMsg (w : JVal) : Except DErr Msg :=
       else .ok (.response id result err)
   | _ => .error .unmarshal
 
+/-! ## Domains of the round-trip laws (shared by the theorems and the monitors) -/
+
+/-- A message for which `decodeMsg (encodeMsg m) = ok m` is claimed: a request/notification has a
+non-empty method, a response has an id, integers are int64 values. -/
+def wfMsg : Msg → Bool
+  | .request id m _ => m ≠ [] && (match id with | .int n => inInt64 n | _ => true)
+  | .response id _ e => (match id with | .none => false | .int n => inInt64 n | .str _ => true) &&
+      (match e with | some e => inInt64 e.code | none => true)
+
+/-- A valid `error` member: an object with an int64 `code` and a string `message`. -/
+def validErr : Option JVal → Bool
+  | none => true
+  | some (.obj e) =>
+    (match lookup WireError_Code_name e with | some (.int n) => inInt64 n | _ => false) &&
+    (match lookup WireError_Message_name e with | some (.str _) => true | _ => false)
+  | _ => false
+
+/-- A valid wire message as C19/C02 quantify: an object with `jsonrpc:"2.0"`, an id that is a
+string, an integer in the int64 range, or absent, and the member combination of a request or
+notification (non-empty string method, no result/error) or of a response (id, no params, optional
+result, optional valid error). -/
+def validWire : JVal → Bool
+  | .obj kvs =>
+    (match lookup wireDecode_VersionTag_name kvs with | some (.str v) => v = wireVersion | _ => false) &&
+    (match lookup wireDecode_ID_name kvs with
+      | none => true
+      | some (.str _) => true
+      | some (.int n) => inInt64 n
+      | _ => false) &&
+    (match lookup wireDecode_Method_name kvs with
+      | some (.str m) => m ≠ [] && (lookup wireDecode_Result_name kvs).isNone && (lookup wireDecode_Error_name kvs).isNone
+      | some _ => false
+      | none => (lookup wireDecode_ID_name kvs).isSome && (lookup wireDecode_Params_name kvs).isNone &&
+          validErr (lookup wireDecode_Error_name kvs))
+  | _ => false
+
+/-- Member `k` of an `error` value. -/
+def errOf (ev : Option JVal) (k : Bytes) : Option JVal :=
+  match ev with
+  | some (.obj e) => lookup k e
+  | _ => none
+
+/-- Member `k` of the `error` object of a wire message. -/
+def errMember (k : Bytes) (w : List (Bytes × JVal)) : Option JVal :=
+  errOf (lookup wireDecode_Error_name w) k
+
+/-- The members C19 names: id, method, params, result, error code/message/data (and the tag). -/
+structure Proj where
+  tag : Option JVal
+  id : Option JVal
+  method : Option JVal
+  params : Option JVal
+  result : Option JVal
+  errCode : Option JVal
+  errMessage : Option JVal
+  errData : Option JVal
+deriving DecidableEq, Repr
+
+def proj : JVal → Option Proj
+  | .obj a => some {
+      tag := lookup wireDecode_VersionTag_name a
+      id := lookup wireDecode_ID_name a
+      method := lookup wireDecode_Method_name a
+      params := lookup wireDecode_Params_name a
+      result := lookup wireDecode_Result_name a
+      errCode := errMember WireError_Code_name a
+      errMessage := errMember WireError_Message_name a
+      errData := errMember WireError_Data_name a }
+  | _ => none
+
 /-! ## Error wrapping (`toWireError`) -/
 
 /-- A Go error value as far as `toWireError` can see it: a `*WireError`, or any other error with
